@@ -162,6 +162,98 @@ func (t *T) KeyedDouble(k string, c bool) {
 
 func (t *T) KeyedDropped(k string) { t.lockKey(k) }
 
+// re-entrant acquisition
+func (t *T) ReadA(k string) int {
+	t.rw.RLock()
+	defer t.rw.RUnlock()
+	return t.ReadB(k) // RLock inside RLock through a call: deadlocks once a writer is queued
+}
+
+func (t *T) ReadB(k string) int {
+	t.rw.RLock()
+	defer t.rw.RUnlock()
+	return t.m[k]
+}
+
+func (t *T) viaHelper() { t.lockedHelper() }
+
+func (t *T) lockedHelper() {
+	t.mu.Lock()
+	defer t.mu.Unlock()
+}
+
+func (t *T) Outer() {
+	t.mu.Lock()
+	defer t.mu.Unlock()
+	t.viaHelper() // transitively locks mu again
+}
+
+func (t *T) ReleasedFirst() {
+	t.mu.Lock()
+	t.mu.Unlock()
+	t.lockedHelper() // fine: not held any more
+}
+
+func (t *T) Twice() {
+	t.mu.Lock()
+	t.mu.Lock()
+	t.mu.Unlock()
+	t.mu.Unlock()
+}
+
+// objects from a lister / informer cache
+type obj struct {
+	Size int
+	Tags map[string]string
+	List []int
+}
+
+func (o *obj) DeepCopy() *obj { c := *o; return &c }
+
+type lister struct{}
+
+func (lister) Get(name string) (*obj, error) { return &obj{}, nil }
+func (lister) List() ([]*obj, error)         { return nil, nil }
+
+type C struct{ PoolLister lister }
+
+func (c *C) ReadsOnly() int {
+	o, _ := c.PoolLister.Get("a")
+	return o.Size
+}
+
+func (c *C) Mutates() {
+	o, err := c.PoolLister.Get("a")
+	if err != nil {
+		return
+	}
+	o.Size = 3 // write through the cache object
+}
+
+func (c *C) CopiesFirst() {
+	o, _ := c.PoolLister.Get("a")
+	cp := o.DeepCopy()
+	cp.Size = 3
+	cp.Tags["x"] = "y"
+}
+
+func (c *C) MutatesElement() {
+	os, _ := c.PoolLister.List()
+	for _, o := range os {
+		o.Tags["x"] = "y"
+	}
+	os[0].List = append(os[0].List, 1)
+}
+
+func (c *C) PassesOn() {
+	o, _ := c.PoolLister.Get("a")
+	bump(o)
+}
+
+func bump(o *obj) { o.Size++ }
+
+func (c *C) UpdatePod(oldPod, newPod *obj) { newPod.Size = 1 }
+
 func (t *T) Loop(ks []string) {
 	for _, k := range ks {
 		t.mu.Lock()
@@ -309,4 +401,44 @@ func TestBalance(t *testing.T) {
 	check("mini.T.KeyedLeak", "leaked")
 	check("mini.T.KeyedDouble", "deferred", "unheld")
 	check("mini.T.KeyedDropped", "leaked")
+}
+
+func TestReentrant(t *testing.T) {
+	a, entry := analyseMini(t)
+	got := strings.Join(reentrantCalls(a, entry), " ")
+	for _, want := range []string{
+		"reentrant-lock:mini.T.rw@mini.T.ReadA->mini.T.ReadB",
+		"reentrant-lock:mini.T.mu@mini.T.Outer->mini.T.viaHelper",
+		"reentrant-lock:mini.T.mu@mini.T.Twice->mini.T.Twice",
+	} {
+		if !strings.Contains(got, want) {
+			t.Errorf("missing %s in %q", want, got)
+		}
+	}
+	for _, not := range []string{"ReleasedFirst", "CallsHelperLocked", "mini.T.helper", "KeyedDefer"} {
+		if strings.Contains(got, "@mini.T."+not+"->") {
+			t.Errorf("false positive for %s in %q", not, got)
+		}
+	}
+}
+
+func TestCacheObjects(t *testing.T) {
+	a, _ := analyseMini(t)
+	written := map[string]int{}
+	for _, u := range cacheObjectUses(a.repo, a.pkgs) {
+		if u.kind == "written" {
+			written[u.fn]++
+		}
+	}
+	want := map[string]int{"mini.C.Mutates": 1, "mini.C.MutatesElement": 2, "mini.bump": 1, "mini.C.UpdatePod": 1}
+	for f, n := range want {
+		if written[f] != n {
+			t.Errorf("%s: %d writes through cache objects, want %d", f, written[f], n)
+		}
+	}
+	for f := range written {
+		if _, ok := want[f]; !ok {
+			t.Errorf("false positive: write through a cache object reported in %s", f)
+		}
+	}
 }
